@@ -4,8 +4,11 @@ Run after a `fix:` commit that adds or renames a function."""
 import ast, json, os, subprocess, sys
 sys.path.insert(0, os.path.dirname(os.path.dirname(os.path.abspath(__file__))))
 from sa.inline import function_defs, INVENTORY_FILE
+from sa.callstyle import baseline_call_style, module_globals
 repo = sys.argv[1] if len(sys.argv) > 1 else '/repo'
 names = []
+trees = {}
+globs = []
 for pkg in ('fggs', 'bin'):
     d = os.path.join(repo, pkg)
     for fn in sorted(os.listdir(d)):
@@ -13,6 +16,8 @@ for pkg in ('fggs', 'bin'):
             mod = f"{pkg}.{fn[:-3]}" if fn != '__init__.py' else pkg
             tree = ast.parse(open(os.path.join(d, fn)).read())
             names += [f"{mod}:{q}" for q in function_defs(tree)]
+            trees[mod] = tree
+            globs += [f"{mod}:{g}" for g in module_globals(tree)]
 head = subprocess.run(['git', '-C', repo, 'rev-parse', 'HEAD'], capture_output=True, text=True).stdout.strip()
-json.dump({'repo_head': head, 'functions': sorted(names)}, open(INVENTORY_FILE, 'w'), indent=0)
+json.dump({'repo_head': head, 'functions': sorted(names), 'globals': sorted(set(globs)), 'call_style': baseline_call_style(trees)}, open(INVENTORY_FILE, 'w'), indent=0)
 print(len(names), 'functions ->', INVENTORY_FILE)
